@@ -326,7 +326,7 @@ inline void cmdXpath(const Msg& q, Msg& r) {
     })
     if (all || entry == "bool") XV_TRY("bool", { bool b = false; if (haveList) xp.execute(ctxNode, res, ctxList, ectx, b); else xp.execute(ctxNode, res, ectx, b); r["bool"] = b ? "1" : "0"; })
     if (all || entry == "num") XV_TRY("num", { double x = 0; if (haveList) xp.execute(ctxNode, res, ctxList, ectx, x); else xp.execute(ctxNode, res, ectx, x); r["num"] = dbits(x); })
-    if (all || entry == "str") XV_TRY("str", { XalanDOMString s; if (haveList) xp.execute(ctxNode, res, ctxList, ectx, s); else xp.execute(ctxNode, res, ectx, s); r["str"] = u8(s); })
+    if (all || entry == "str") XV_TRY("str", { XalanDOMString s(xs(get(q, "strprefix"))); if (haveList) xp.execute(ctxNode, res, ctxList, ectx, s); else xp.execute(ctxNode, res, ectx, s); r["str"] = u8(s); })
     if (all || entry == "chars") XV_TRY("chars", { Chars c; c.calls = 0; if (haveList) xp.execute(ctxNode, res, ctxList, ectx, c, &FormatterListener::characters); else xp.execute(ctxNode, res, ectx, c, &FormatterListener::characters); r["chars"] = c.got; })
     if (all || entry == "nodelist") XV_TRY("nodelist", {
         MutableNodeRefList l(mm);
